@@ -1535,7 +1535,7 @@ package analysis
 //@   ensures result1 <==> (name == "" || nameTaken(definitions, name))
 //@   ensures !result1 ==> result == name
 //@   loop 1: invariant known <==> nameTaken(definitions, unique)
-//@   loop 1: invariant isOAIGen && nameTaken(definitions, old(name))
+//@   loop 1: invariant isOAIGen && (old(name) == "" || nameTaken(definitions, old(name)))
 
 //@ func nameExists(definitions, name)
 //@   modifies nothing
